@@ -210,6 +210,30 @@ def feature_circuits():
     return out
 
 
+def large_circuit(rnd, n_in, n_g, pool=None, max_arity=3, locality=0.85, n_outputs=3, prefix="g"):
+    """Hundreds of gates: operands come mostly from the last few gates, so cones are deep and reconvergent
+    (sizes at which traversals, caches, word sizes and recursion depths change regime)."""
+    ins = [f"x{i}" for i in range(n_in)]
+    nodes, gates = list(ins), []
+    for j in range(n_g):
+        k = rnd.choice([1, 2, 2, 2] + list(range(3, max_arity + 1)))
+        ts = types_for_arity(k, pool) or types_for_arity(2, pool)
+        t = rnd.choice(ts)
+        k = k if types_for_arity(k, pool) else 2
+        recent = nodes[-6:]
+        gates.append((f"{prefix}{j}", t, tuple(rnd.choice(recent if rnd.random() < locality else nodes) for _ in range(k))))
+        nodes.append(f"{prefix}{j}")
+    outs = [nodes[-1]] + [rnd.choice(nodes[n_in:]) for _ in range(n_outputs - 1)]
+    return build(ins, gates, outs)
+
+
+def large_circuits(seed=0):
+    rnd = __import__("random").Random(1000 + seed)
+    bench_pool = [G.NOT, G.AND, G.OR, G.XOR, G.NAND, G.NOR, G.NXOR, G.IFF]
+    return [("large-300-gates", large_circuit(rnd, 8, 300)),
+            ("large-700-gates-bench-types", large_circuit(rnd, 10, 700, pool=bench_pool, max_arity=2, prefix="n"))]
+
+
 def seeded_family(seed, count, n_inputs=(1, 5), n_gates=(1, 10), **kw):
     rnd = random.Random(seed)
     for i in range(count):
